@@ -156,12 +156,12 @@ def _replay(binary, beh, obs, shapes, settings, mode, timeout=1500):
         # the run number `done + 1` crashed: write a crash record for it (the oracle flags it), continue behind it
         with open(obs, "a") as f:
             f.write(json.dumps({"b": 0, "k": done + 1, "shape": "?", "up": True, "ma": 0, "kind": "?", "zst": False,
-                                "crash": True, "unsup": False, "std": False, "stopped": False,
+                                "crash": True, "unsup": False, "std": False, "stopped": False, "esz": 0,
                                 "cfg": {"kind": "?", "zst": False, "km": "", "n": 0, "spare": 0},
                                 "rc": p.returncode,
                                 "steps": [{"op": "init", "c": 1, "d": 0, "i": 0, "j": 0, "s": "", "pk": "", "pn": 0,
                                            "o": {"out": "ok", "injp": False, "msg": "", "ret": [], "num": [],
-                                                 "cs": [["-", [], 0, 0, 0]], "dr": [], "cr": [], "tomb": False, "held": [],
+                                                 "cs": [["-", [], 0, 0, 0, 0]], "dr": [], "cr": [], "cl": [], "tomb": False, "held": [],
                                                  "zc": 0, "zd": 0, "xcb": 0}}]}) + "\n")
         skip = done + 1
         if crashes > 200 or time.time() - t0 > timeout:
@@ -252,8 +252,11 @@ def _signature(pid, rec, why):
     first = sorted(why, key=lambda w: (w[0], w[1]))[0] if why else [0, "?", 0]
     t = first[0]
     step = rec["steps"][t - 1] if 0 < t <= len(rec["steps"]) else {"op": "?"}
+    # zero sized elements are counted, not identified: a surplus drop shows at the step where the count goes wrong, which
+    # can be later than the operation that caused it; record whether a `drain ... drop` preceded (known finding F1)
+    drain_before = any(x["op"] == "drain" and x.get("s") == "drop" for x in rec["steps"][:t])
     return {"clause": first[1], "op": step.get("op"), "fin": step.get("s", ""), "kind": rec["kind"],
-            "zst": bool(rec["zst"]), "inject": step.get("pk", "")}
+            "zst": bool(rec["zst"]), "inject": step.get("pk", ""), "zst_drain_drop_before": bool(rec["zst"]) and drain_before}
 
 
 def _check(pid, tier, tag, plan):
@@ -284,7 +287,7 @@ def _check(pid, tier, tag, plan):
         raise ToolError("no behaviours emitted")
     # 3. replay on the real collections and on std
     obs = os.path.join(wd, "obs.ndjson")
-    nruns, crashes = _replay(binary, beh, obs, SHAPES, SETTINGS, "all" if plan.get("all_settings", thorough) else "rotate")
+    nruns, crashes = _replay(binary, beh, obs, SHAPES, SETTINGS, plan["replay_mode"])
     stdobs = os.path.join(wd, "std.ndjson")
     p = run([binary, "std", beh, stdobs], timeout=1200)
     nstd = int(p.stdout.strip() or 0)
@@ -364,17 +367,21 @@ COMMON_ASSUMPTIONS = [
 
 def check_c06(tier):
     th = tier == "thorough"
+    ops = ALL_OPS + ["drop_inject"]
     plan = {
-        "mc": dict(kinds=KINDS, zst=[False, True], lens=[0, 1, 2, 3], spare=[1], maxlen=4 if th else 3, maxids=12 if th else 9,
-                   maxops=3 if th else 2, inject=True, ops=ALL_OPS + ["drop_inject"]),
+        "mc": dict(kinds=KINDS, zst=[False, True], lens=[0, 1, 2, 3] if th else [0, 2], spare=[1], maxlen=4 if th else 3,
+                   maxids=10 if th else 8, maxops=2, inject=True, ops=ops),
         "emits": [
             # all behaviours of one operation (every panic point) from every initial length
-            (dict(kinds=KINDS, zst=[False, True], lens=[0, 1, 2, 3], spare=[1], maxlen=4, maxids=10, maxops=1, inject=True,
-                  ops=ALL_OPS + ["early_close", "drop_inject"], keymodes=("pair", "same")), None, None),
+            (dict(kinds=KINDS, zst=[False], lens=[0, 1, 2, 3], spare=[1], maxlen=4, maxids=10, maxops=1, inject=True,
+                  ops=ops + ["early_close"], keymodes=("pair", "same") if th else ("pair",)), None, None),
+            (dict(kinds=KINDS, zst=[True], lens=[0, 1, 2, 3] if th else [0, 2], spare=[1], maxlen=4, maxids=10, maxops=1,
+                  inject=True, ops=ops + ["early_close"]), None, None),
             (dict(kinds=KINDS, zst=[False, True], lens=[0, 1, 2, 3], spare=[0, 2], maxlen=4, maxids=14, maxops=5 if th else 4,
-                  inject=True, ops=ALL_OPS + ["drop_inject"], keymodes=("pair", "same", "alt")), 30000 if th else 2400, 16),
-        ] + ([(dict(kinds=[k], zst=[False, True], lens=[2], spare=[1], maxlen=3, maxids=9, maxops=2, inject=True,
-                    ops=ALL_OPS + ["early_close"]), None, None) for k in KINDS] if th else []),
+                  inject=True, ops=ops, keymodes=("pair", "same", "alt")), 40000 if th else 2400, 16),
+        ] + ([(dict(kinds=[k], zst=[False], lens=[2], spare=[1], maxlen=3, maxids=9, maxops=2, inject=True,
+                    ops=ops + ["early_close"]), None, None) for k in KINDS] if th else []),
+        "replay_mode": "shapes" if th else "rotate",
         "explanation": "TLC checks on Vec.tla (one action per public operation, each in the outcomes normal / expected panic / panic "
                        "injected at the k-th Clone, closure, predicate, iterator-next or Drop invocation): no id dropped twice, no id "
                        "with two owners, nothing lost, every created id dropped exactly once when all owners are gone unless it took "
@@ -391,15 +398,18 @@ def check_c06(tier):
 def check_c08(tier):
     th = tier == "thorough"
     plan = {
-        "mc": dict(kinds=KINDS, zst=[False, True], lens=[0, 1, 2, 3], spare=[0, 1], maxlen=4, maxids=12 if th else 9,
-                   maxops=3 if th else 2, inject=False, ops=ALL_OPS),
+        "mc": dict(kinds=KINDS, zst=[False, True], lens=[0, 1, 2, 3] if th else [0, 2], spare=[0, 1], maxlen=4 if th else 3,
+                   maxids=12 if th else 8, maxops=3 if th else 2, inject=False, ops=ALL_OPS),
         "emits": [
-            (dict(kinds=KINDS, zst=[False, True], lens=[0, 1, 2, 3], spare=[0, 1], maxlen=4, maxids=10, maxops=1, inject=False,
-                  ops=ALL_OPS + ["early_close"], keymodes=("pair", "same")), None, None),
+            (dict(kinds=KINDS, zst=[False], lens=[0, 1, 2, 3], spare=[0, 1], maxlen=4, maxids=10, maxops=1, inject=False,
+                  ops=ALL_OPS + ["early_close"], keymodes=("pair", "same") if th else ("pair",)), None, None),
+            (dict(kinds=KINDS, zst=[True], lens=[0, 1, 2, 3] if th else [0, 2], spare=[0, 1], maxlen=4, maxids=10, maxops=1,
+                  inject=False, ops=ALL_OPS + ["early_close"]), None, None),
             (dict(kinds=KINDS, zst=[False, True], lens=[0, 1, 2, 3], spare=[0, 2], maxlen=4, maxids=16, maxops=6 if th else 5,
                   inject=False, ops=ALL_OPS, keymodes=("pair", "same", "alt")), 40000 if th else 3000, 18),
-        ] + ([(dict(kinds=[k], zst=[False, True], lens=[1, 3], spare=[1], maxlen=4, maxids=10, maxops=2, inject=False,
+        ] + ([(dict(kinds=[k], zst=[False], lens=[1, 3], spare=[1], maxlen=4, maxids=10, maxops=2, inject=False,
                     ops=ALL_OPS + ["early_close"]), None, None) for k in KINDS] if th else []),
+        "replay_mode": "shapes" if th else "rotate",
         "explanation": "Vec.tla is the reference (std Vec meaning of every operation, MutBumpVecRev read through the mirror mapping); "
                        "its fidelity to std is validated by replaying every emitted behaviour on std::vec::Vec. TLC checks on the "
                        "model: capacity >= length and >= promise, no buffer change while the promise suffices, fixed vectors never "
@@ -428,19 +438,22 @@ def _arena_half(tier, out):
 def check_c16(tier):
     th = tier == "thorough"
     sk = ["B", "F", "V"]
+    splits = ["split_off", "split_at", "split_ends", "split_at_spare", "partition", "merge", "box_one", "early_close"]
     plan = {
-        "mc": dict(kinds=KINDS, zst=[False, True], lens=[0, 1, 2, 3, 4], spare=[0, 2], maxlen=4, maxids=12 if th else 9,
-                   maxops=3 if th else 2, inject=False, ops=SPLIT_OPS),
+        "mc": dict(kinds=KINDS, zst=[False, True], lens=[0, 1, 2, 3, 4] if th else [0, 3], spare=[0, 2], maxlen=4,
+                   maxids=12 if th else 9, maxops=3 if th else 2, inject=False, ops=SPLIT_OPS),
         "emits": [
-            # every split of every length, followed by one more operation on either part
-            (dict(kinds=sk, zst=[False, True], lens=[0, 1, 2, 3, 4], spare=[0, 2], maxlen=4, maxids=10, maxops=2, inject=False,
-                  ops=["split_off", "split_at", "split_ends", "split_at_spare", "partition", "merge", "box_one", "early_close"]),
-             None, None),
+            # every split operation with every range on every length and spare capacity
+            (dict(kinds=sk, zst=[False, True], lens=[0, 1, 2, 3, 4], spare=[0, 2], maxlen=4, maxids=10, maxops=1, inject=False,
+                  ops=splits), None, None),
+            # ... followed by a second split / merge / follow-up operation on either part
+            (dict(kinds=sk, zst=[False, True] if th else [False], lens=[0, 1, 2, 3, 4] if th else [3], spare=[0, 2] if th else [2],
+                  maxlen=4, maxids=10, maxops=2, inject=False,
+                  ops=splits + ["push", "pop", "truncate", "remove", "reserve", "shrink", "convert"]), None, None),
             (dict(kinds=KINDS, zst=[False, True], lens=[0, 2, 4], spare=[0, 2], maxlen=4, maxids=16, maxops=6 if th else 5,
-                  inject=False, ops=SPLIT_OPS, keymodes=("pair", "alt")), 30000 if th else 3000, 18),
-        ] + ([(dict(kinds=sk, zst=[False], lens=[3, 4], spare=[2], maxlen=4, maxids=10, maxops=3, inject=False,
-                    ops=["split_off", "split_at", "split_ends", "merge", "push", "pop", "truncate", "early_close"]),
-               None, None)] if th else []),
+                  inject=False, ops=SPLIT_OPS, keymodes=("pair", "alt")), 40000 if th else 3000, 18),
+        ],
+        "replay_mode": "shapes" if th else "rotate",
         "extra": _arena_half,
         "explanation": "Element level of C16. TLC checks on Vec.tla that every split / merge / flatten / in-place map keeps the multiset "
                        "of ids over the involved owners, drops nothing, makes capacities add up (sized elements) and leaves every "
